@@ -9,7 +9,7 @@
 (*   MovingEnvironment per sweep, then _update_local_state(i) for i in the  *)
 (*   sweep range), _update_local_state_1site (insert, tot_en, then         *)
 (*   canonize towards the sweep direction), _update_local_state_2site      *)
-(*   (insert the split pair, absorb = direction, no renormalisation, then  *)
+(*   (insert the split pair, absorb = direction, renormalised, then       *)
 (*   tot_en), DMRG.solve (schedules, canonize = not alternate, bond        *)
 (*   expansion for one-site DMRG, energies.append(tot_ens[-1])).           *)
 (*                                                                         *)
@@ -31,9 +31,9 @@
 (*                     returned (no update after the energy was taken)     *)
 (*   BondCap           bonds produced by a split respect the cap; after a  *)
 (*                     two-site sweep all bonds do                         *)
-(*   EndNormalized     (cap >= d) the last split of a sweep cannot truncate,*)
-(*                     so the reported sweep-end energy is the normalised   *)
-(*                     one; for cap < d this FAILS: known finding KF-C10-2  *)
+(*   EndNormalizedAnyCap the state is normalised after every sweep, so the  *)
+(*                     reported sweep-end energy is the normalised one, also*)
+(*                     when the last split truncates (cap < d)              *)
 (*                     (one-site sweeps that were not re-canonized after    *)
 (*                     the bond expansion are the named deviation KF-C10-3) *)
 (*   WiringMatchesApply the energy network attaches the ket to the operator *)
@@ -49,7 +49,7 @@ CONSTANTS Ls,        \* set of chain lengths
           B0s,       \* bond size of the initial state p0 (all bonds, before capping at natural size)
           Modes,     \* subset of {"solve", "manual"}
           MaxSweeps,
-          MinExtra,  \* chains have at least bsz + MinExtra sites (1 in the main runs; 0 admits L = bsz: KF-C10-5)
+          MinExtra,  \* chains have at least bsz + MinExtra sites (0: L = bsz is admitted)
           Ranks,     \* "max": a split keeps min(rank bound, cap); "any": it may also find rank 1
           Mutant,    \* "none" or the name of a seeded protocol defect (model self-tests)
           Emit       \* TRUE: print every complete script as JSON (S->C replay cases)
@@ -88,10 +88,10 @@ BR(b, i) == IF i = L - 1 THEN 1 ELSE b[i + 1]  \* right bond of site i
 \* begin = 'right': mirror image; the dummy _RIGHT goes to envs[stop - 1].
 InitSegment(begin, v) ==
   [begin |-> begin,
-   \* begin = 'right' ends with `self.envs[i] |= self.tnc["_RIGHT"]` where i is the variable of the loop
-   \* `for i in range(start + 1, stop)`: when the segment has a single position (L = bsz) the loop body never
-   \* runs and i is unbound (UnboundLocalError)
-   err  |-> (begin = "right" /\ Stop - 1 < 1),
+   \* begin = 'right' ends with `self.envs[stop - 1] |= self.tnc["_RIGHT"]`.  (Mutant "unbound_i": the earlier
+   \* form `self.envs[i] |= ...` with i the variable of `for i in range(start + 1, stop)`, which is unbound when
+   \* the segment has a single position, L = bsz: UnboundLocalError)
+   err  |-> (Mutant = "unbound_i" /\ begin = "right" /\ Stop - 1 < 1),
    pos  |-> IF begin = "left" THEN 0 ELSE Stop - 1,
    envs |-> [j \in 0..(Stop - 1) |->
       IF begin = "left"
@@ -246,7 +246,7 @@ LocalUpdate1 ==
   /\ UNCHANGED <<incall, tolbig, pad, wire, L, bsz, mode, b0, phase, nsw, prev, dir, canon, cap, capmax, me, energies, script, sites>>
 
 \* _update_local_state_2site(i): eigen-solve for sites (i, i+1), split with absorb = direction,
-\* max_bond = cap, no renormalisation; tot_en = eff_ham ^ all afterwards
+\* max_bond = cap, renorm = True; tot_en = eff_ham ^ all afterwards
 LocalUpdate2 ==
   /\ phase = "sweep" /\ bsz = 2 /\ todo # <<>> /\ ~me.err /\ me.pos = Head(todo)
   /\ LET i == Head(todo)
@@ -257,9 +257,10 @@ LocalUpdate2 ==
         /\ ver' = [ver EXCEPT ![i] = @ + 1, ![i + 1] = @ + 1]
         /\ sver' = sver + 1
         \* the split truncates whenever the cap is below the rank bound (a smaller rank r models a
-        \* rank-deficient optimum: nothing is cut)
+        \* rank-deficient optimum: nothing is cut); the kept singular values are rescaled (renorm=True), so the
+        \* state stays normalised (Mutant "no_renorm": the split without the rescaling)
         /\ erep' = [sv |-> IF Mutant = "energy_before_update" THEN sver ELSE sver + 1,
-                    norm |-> ~(r = kept /\ kept < rmax)]
+                    norm |-> ~(Mutant = "no_renorm" /\ r = kept /\ kept < rmax)]
         /\ form' = IF dir = "R" THEN [form EXCEPT ![i] = "L", ![i + 1] = "X"]
                    ELSE [form EXCEPT ![i] = "X", ![i + 1] = "R"]
         /\ bond' = [bond EXCEPT ![i + 1] = r]
@@ -313,7 +314,7 @@ BondCap ==
   /\ (phase \in {"idle", "done"} /\ nsw > 0 /\ bsz = 1) => \A j \in 1..(L - 1) : bond[j] <= Max2(capmax, b0)
 \* after a completed sweep the state is normalised and the reported energy is the normalised one
 EndNormalized == (phase \in {"idle", "done"} /\ nsw > 0 /\ cap >= D) => energies[nsw].norm
-EndNormalizedAnyCap == (phase \in {"idle", "done"} /\ nsw > 0) => energies[nsw].norm      \* FAILS: KF-C10-2
+EndNormalizedAnyCap == (phase \in {"idle", "done"} /\ nsw > 0) => energies[nsw].norm
 
 (* ---------------- wiring of the energy network ------------------------- *)
 \* wire[1] is the ket, wire[2] the Hamiltonian, wire[3] the bra.
